@@ -53,6 +53,14 @@ CHECKS = {
          "Shared Arc<Parser> values (built-in lexer and extern tokens) are hammered from 8-32 threads with a start barrier; every result is compared with a fresh-parser baseline; TSan and Miri reports are violations; Send+Sync is asserted at compile time."),
  "C28": ("exploration", "3/C28", "exhaustive runtime monitor over small domains with recording closures vs an independent re-statement of the documented behaviour",
          "All 128 ParseError values over the small domains are pushed through map_location/map_token/map_error/Display/From; call sequences of the closures are recorded (both span ends, start then end)."),
+ "C15": ("translation_validation", "3/C15 + A.5", "translation validation: output for the annotated grammar under each feature set vs output for the hand-deleted grammar (bytes after the header, else proc_macro2 token streams)",
+         "Grammars with #[cfg] on nonterminals, alternatives and extern conversions (feature=, not, all, any, nesting, several attributes per item); ALL subsets of the feature names; features given by --features, set_features and CARGO_FEATURE_* (name mangling); acceptance and generated program must equal those of the reference-deleted text."),
+ "C19": ("exploration", "3/C19", "runtime (build-time) monitor: rustc type-checks every module LALRPOP accepts, inside a subject crate against the current lalrpop-util",
+         "Generator profiles in both back ends, Clone-only Location type, built-in lexers with exotic terminal names, and type-rich templates (extern patterns with 0/1/2 bindings, generics/lifetimes/where/associated types/grammar parameters, macro type parameters, 'input borrows, boxed recursive types); any rustc rejection of an accepted grammar is a violation."),
+ "C25": ("exploration", "3/C25", "differential runtime monitor: grammar vs injectively renamed grammar (adversarial identifier pools) on LALRPOP acceptance, rustc acceptance and every parse result/action log",
+         "Nonterminals, macro names/parameters and bindings are renamed in model grammars (results compared on exhaustive short strings, sentences, mutants in both back ends); grammar parameters, type parameters and lifetimes are renamed in templates (acceptance + compilation)."),
+ "C26": ("exploration", "3/C26", "differential monitor on layout variants (token-list printer + random whitespace/comments) and value monitor on embedded Rust snippets computing known strings",
+         "Layout: canonical vs 4 random layouts per grammar must give the same acceptance and program. Embedded Rust: tricky literals/delimiters/lifetimes/comments in actions, use items, type annotations and #![..] attributes must be accepted, compile, and compute the expected value in both back ends."),
 }
 checks = []
 for p in props:
